@@ -41,10 +41,11 @@ MANIFEST = dict(
          "operations back to back before a read, from a synchronised state): records about files are read independently of "
          "file system and kernel state (C03_read_batch_file), so the stream is the concatenation of the per-operation "
          "contracts, each taken at the state in which its operation ran, and every event is justified by an operation of the "
-         "burst (C03_burst_files_contract, C03_burst_files_sound, read_batch/delivered level; side condition: the kernel "
-         "coalesced no record across an operation border - only `chmod f; chmod f` does); STATED ONLY "
-         "(C03_sound_full_current): soundness over all interleavings - bursts with directory operations, bursts on the "
-         "Pipeline model in general, ticks or queue_events between the reads of a block. "
+         "burst (C03_burst_files_contract, C03_burst_files_sound at the read_batch/delivered level; C03_burst_files_pipeline on the "
+         "Pipeline model: AOp ... AOp; the reads cut arbitrarily; ticks/queue_events; delay; emits - sound_along holds and the "
+         "final state is synchronised again; side condition: the kernel coalesced no record across an operation border - only "
+         "`chmod f; chmod f` does); STATED ONLY (C03_sound_full_current): soundness over all interleavings - bursts with "
+         "directory operations, operations or ticks/queue_events between the reads of a block. "
          "Pipeline model in lock-step against the real observer on the real kernel (see C01); completeness: in "
          "one-at-a-time histories the events delivered for each operation must equal the per-operation contract written "
          "from the property text; soundness: in arbitrary (also unpaced) histories every delivered event must be explained "
